@@ -209,6 +209,10 @@ def np_ceil(ctx, x):
 
 
 def m_minimum(ctx, a, b):
+    if isinstance(a, PyObj) and hasattr(a, 'map_'):
+        return a.map_(ctx, lambda v: m_minimum(ctx, v, b))
+    if isinstance(b, PyObj) and hasattr(b, 'map_'):
+        return b.map_(ctx, lambda v: m_minimum(ctx, a, v))
     if isinstance(a, (NaNType, Opaque)):
         return a
     if isinstance(b, (NaNType, Opaque)):
@@ -217,6 +221,10 @@ def m_minimum(ctx, a, b):
 
 
 def m_maximum(ctx, a, b):
+    if isinstance(a, PyObj) and hasattr(a, 'map_'):
+        return a.map_(ctx, lambda v: m_maximum(ctx, v, b))
+    if isinstance(b, PyObj) and hasattr(b, 'map_'):
+        return b.map_(ctx, lambda v: m_maximum(ctx, a, v))
     if isinstance(a, (NaNType, Opaque)):
         return a
     if isinstance(b, (NaNType, Opaque)):
